@@ -288,6 +288,21 @@ Section Cached.
           end
       end.
 
+    (* the try/except around complete_value in resolve_field (see
+       complete_field in Exec/ExecModel.v); the errors recorded before the
+       abort are recomputed with the tables as they are afterwards -- the code
+       does not recompute anything, they are simply still in _errors *)
+    Definition complete_field_c (nodes : list selection) (t : tref) (p : path) (v : pv) : M (pv * list error) :=
+      fun c =>
+        match complete_value_c nodes t p v c with
+        | (Rejected k q, c') =>
+            if Nat.eqb k REJ_COERCION
+            then (Ok (PNone, complete_value_partial sch tyres (fun tn x q' ss => fst (sub_exec tn x q' ss c'))
+                                                    nodes t p v ++ [Err p [] ECoercion]), c')
+            else (Rejected k q, c')
+        | o => o
+        end.
+
     Definition resolve_field_c (tname : str) (parent : pv) (k : fkind) (fd : fdef)
                (nodes : list selection) (p : path) : M (pv * list error) :=
       match nodes with
@@ -301,11 +316,11 @@ Section Cached.
             | (Ok args, c') =>
                 match k with
                 | FIntrospection => (Crash CRASH_UNMODELLED, c')
-                | FTypename => complete_value_c nodes (f_type fd) p (PStr tname) c'
+                | FTypename => complete_field_c nodes (f_type fd) p (PStr tname) c'
                 | FUser =>
                     match world p parent tname (f_name fd) args with
-                    | RVal v => complete_value_c nodes (f_type fd) p v c'
-                    | RDefault => complete_value_c nodes (f_type fd) p (default_resolve parent (f_pyname fd)) c'
+                    | RVal v => complete_field_c nodes (f_type fd) p v c'
+                    | RDefault => complete_field_c nodes (f_type fd) p (default_resolve parent (f_pyname fd)) c'
                     | RErr m x => (Ok (PNone, [Err p [sel_loc node] (EResolver m x)]), c')
                     | RExn => (Crash CRASH_RESOLVER, c')
                     end
